@@ -15,3 +15,5 @@ def rules(ctx):
     S.c20_r4_page_addresses(ctx)
     S.c14_rules(ctx)
     S.refcount_rules(ctx)
+    S.allocator_snapshot_complete_rules(ctx)
+    S.system_freed_store_rules(ctx)
